@@ -104,6 +104,8 @@ pub struct RunOut {
     pub events: Option<SimEvents>,
     /// served by the long-lived server process (fast path) rather than by a fresh process
     pub via_server: bool,
+    /// real time of the run (diagnostic only: never part of a verdict except through the tripwire)
+    pub wall_ms: u64,
 }
 
 pub struct Paths {
@@ -321,6 +323,7 @@ pub fn run_raw(wd: &WorkDir, paths: &Paths, argv: &[String], env: &Env) -> RunOu
     for f in ["stdout.txt", "stderr.txt", "out.txt", "stats.json", "events.json"] {
         let _ = std::fs::remove_file(wd.p(f));
     }
+    let t_start = std::time::Instant::now();
     if wd.use_server {
         let mut slot = wd.server.borrow_mut();
         // a fresh server every 1000 runs bounds whatever a long-lived process may accumulate
@@ -340,6 +343,7 @@ pub fn run_raw(wd: &WorkDir, paths: &Paths, argv: &[String], env: &Env) -> RunOu
                         stats,
                         events,
                         via_server: true,
+                        wall_ms: t_start.elapsed().as_millis() as u64,
                     };
                 }
                 None => {
@@ -398,5 +402,6 @@ pub fn run_raw(wd: &WorkDir, paths: &Paths, argv: &[String], env: &Env) -> RunOu
         stats: read("stats.json").and_then(|b| serde_json::from_slice(&b).ok()),
         events: read("events.json").and_then(|b| serde_json::from_slice(&b).ok()),
         via_server: false,
+        wall_ms: t_start.elapsed().as_millis() as u64,
     }
 }
